@@ -346,12 +346,44 @@ def settings_key(s: Dict[str, Any]) -> str:
     )
 
 
+_RE_MEXPR_Q = _re.compile(r'(?:forall|exists)\s+(<[^<> ]*>)\s+\w+\s*=\s*"')
+
+
+def root_match_start(tpl: Dict[str, Any]) -> Optional[str]:
+    """The nonterminal N of the template's first quantifier with a match expression, if the template can be used
+    with ``start_symbol=N``: the solver's initial tree is then itself a node the quantifier has to match (the
+    matched node is the root of the `in` tree)."""
+    if tpl["text"] is None:
+        return None
+    m = _RE_MEXPR_Q.search(tpl["text"])
+    if not m:
+        return None
+    g = GRAMMARS[tpl["grammar"]]
+    n = m.group(1)
+    if n not in g or n == "<start>":
+        return None
+    reach = set(reachable_nonterminals(g, n)) | {n}
+    nts = template_nonterminals(tpl)
+    if "<start>" in nts or not all(nt in reach for nt in nts):
+        return None
+    return n
+
+
 def make_case(tpl: Dict[str, Any], s: Dict[str, Any], timeout_seconds: int = 10,
-              n_solve: int = 10, n_post: int = 5) -> Dict[str, Any]:
+              n_solve: int = 10, n_post: int = 5, root_match: bool = False) -> Dict[str, Any]:
     s = dict(s)
     if s["inner"] and not inner_start_applicable(tpl):
         s["inner"] = False
     start_symbol = INNER_START[tpl["grammar"]] if s["inner"] else None
+    if root_match:
+        start_symbol = root_match_start(tpl)
+        s["inner"] = True
+        return dict(
+            cid=f'{tpl["tid"]}|{settings_key(s)}|root-match',
+            tid=tpl["tid"], grammar=tpl["grammar"], cls=tpl["cls"], text=tpl["text"], expect=tpl["expect"],
+            settings=s, start_symbol=start_symbol, timeout_seconds=timeout_seconds,
+            n_solve=n_solve, n_post=n_post,
+        )
     return dict(
         cid=f'{tpl["tid"]}|{settings_key(s)}',
         tid=tpl["tid"], grammar=tpl["grammar"], cls=tpl["cls"], text=tpl["text"], expect=tpl["expect"],
@@ -382,6 +414,14 @@ def select_cases(tier: str, seed: int, salt: str = "C01", quick_total: int = 150
             cases.append(case)
 
     solvable = [t for t in TEMPLATES]
+    # every template with a match expression once more with the quantified nonterminal as requested start symbol
+    # (default settings): the initial tree is then a node the quantifier itself has to match
+    for tpl in solvable:
+        if tpl["grammar"] != "wide" and root_match_start(tpl) is not None:
+            case = make_case(tpl, DEFAULT_SETTINGS, root_match=True)
+            if case["cid"] not in seen:
+                seen.add(case["cid"])
+                cases.append(case)
     if tier == "quick":
         for tpl in solvable:
             add(tpl, grid[rng.randrange(len(grid))])
